@@ -389,16 +389,22 @@ def run(ctx):
             r3.violation(key, "the filtered value is %s, not one look-up of the requested entry in the layout map — an empty or missing assignment can be replaced by "
                          "another entry's value" % (recv.a[0].split("::")[-1] + "(…)" if recv.k == "call" else repr(recv)[:80]), common.fn_line(prog, helper))
             continue
-        clo = e.a[1][1]
-        if not (clo.k == "agg" and clo.a[0].startswith("closure:")):
-            r3.undecidable(key, "filter predicate is not a local closure", common.fn_line(prog, helper))
+        clo = strip_refs(e.a[1][1])
+        pred_param = 2          # a closure's first parameter is its environment
+        if clo.k == "agg" and clo.a[0].startswith("closure:"):
+            ck = clo.a[0][len("closure:"):]
+            upvars = [strip_refs(u) for u in clo.a[1]]
+        elif clo.k == "const" and isinstance(clo.a[0], tuple) and clo.a[0][0] == "fn" and clo.a[0][1] in prog.fns:
+            ck = clo.a[0][1]          # a named predicate function (`.filter(is_filled)`): no captures
+            upvars = []
+            pred_param = 1
+        else:
+            r3.undecidable(key, "filter predicate is neither a local closure nor a local function", common.fn_line(prog, helper))
             continue
-        ck = clo.a[0][len("closure:"):]
         cb = prog.body(ck)
-        upvars = [strip_refs(u) for u in clo.a[1]]
 
-        def is_empty_atom(x):
-            return x.k == "call" and x.a[0].endswith("String::is_empty") and strip_refs(x.a[1][0]).k in ("arg",) and strip_refs(x.a[1][0]).a[0] == 2
+        def is_empty_atom(x, pred_param=pred_param):
+            return x.k == "call" and x.a[0].endswith("String::is_empty") and strip_refs(x.a[1][0]).k in ("arg",) and strip_refs(x.a[1][0]).a[0] == pred_param
 
         def upvar_atom(x):
             r, f = apath(x)
@@ -609,12 +615,17 @@ def _explicit_filter(prog, helper, is_np, enc=None):
                 and strip_refs(inner_.a[1][0]).k == "call" and strip_refs(inner_.a[1][0]).a[0].endswith("HashMap::<K, V, S, A>::get"):
             # this arm answers with `get(..).filter(closure).cloned()`: present ∧ closure, decided inside the combinator
             clo_ = strip_refs(inner_.a[1][1])
+            pp_ = 2
             ck_ = str(clo_.a[0])[len("closure:"):] if (clo_.k == "agg" and str(clo_.a[0]).startswith("closure:")) else None
-            if ck_ is None or ck_ not in prog.fns or clo_.a[1]:
+            if ck_ is not None and clo_.a[1]:
+                return None
+            if ck_ is None and clo_.k == "const" and isinstance(clo_.a[0], tuple) and clo_.a[0][0] == "fn":
+                ck_, pp_ = clo_.a[0][1], 1          # a named predicate function
+            if ck_ is None or ck_ not in prog.fns:
                 return None
             from engine.analyses import truth_table as _tt
-            tt_ = _tt(prog.body(ck_), [("is_empty", lambda x: x.k == "call" and x.a[0].endswith("String::is_empty") and strip_refs(x.a[1][0]).k == "arg"
-                                       and strip_refs(x.a[1][0]).a[0] == 2)])
+            tt_ = _tt(prog.body(ck_), [("is_empty", lambda x, pp_=pp_: x.k == "call" and x.a[0].endswith("String::is_empty") and strip_refs(x.a[1][0]).k == "arg"
+                                       and strip_refs(x.a[1][0]).a[0] == pp_)])
             if tt_ != {(False,): True, (True,): False}:
                 return "the filter of this arm is not `¬is_empty` (%s)" % (tt_,)
             if is_np and numpad is not True:
